@@ -73,6 +73,7 @@ type Exec struct {
 	allocs  int
 	propsOf []string
 	pendingEnv0 *SpecEnv
+	callCells   map[string]*Cell // ghost counters: calls("pattern")
 	havocEpoch  int
 }
 
